@@ -27,7 +27,6 @@ import (
 	"fmt"
 	"math/big"
 	"net"
-	"sort"
 	"strconv"
 	"strings"
 	"testing"
@@ -1228,7 +1227,14 @@ func (w *c13World) discCase(t *testing.T, out *vh.Out, z c13Zone) {
 		}
 	}
 	out.Stat("disc/zone:a" + z.a + "_c" + z.c + "_r" + z.r + "_m" + z.m)
-	out.Stat("disc/outcome:" + strings.Fields(obs)[0] + map[bool]string{true: "-records", false: ""}[len(recs) > 0] + map[bool]string{true: " " + strings.TrimPrefix(obs, "err "), false: ""}[err != nil])
+	switch {
+	case err != nil:
+		out.Stat("disc/outcome:" + obs)
+	case len(recs) > 0:
+		out.Stat("disc/outcome:ok records")
+	default:
+		out.Stat("disc/outcome:ok none")
+	}
 	out.Stat("disc/ck:" + ck)
 }
 
@@ -1386,5 +1392,4 @@ func TestVerifC13Conn(t *testing.T) {
 			w.connCase(t, out, z, ck, hs)
 		}
 	}
-	_ = sort.Strings
 }
